@@ -21,12 +21,13 @@ func init() {
 		ID: "C12",
 		Explain: "Behaviour over all presence combinations is not decided; decided are the structural clauses of parseAlert for every alert: " +
 			"(ALERT) the informs-something predicate is false exactly when agency, route, known route type, identifiable trip and stop are all absent (extracted decision table); a trip is identifiable exactly by id or by route+direction+start time+start date; selector entities are appended, one per accepted selector and in selector order, only under the predicate; on the identifiable edge every path also appends the trip (built from the selector's descriptor, not-in-message) and otherwise the trip id is cleared; route fallback entities are appended only under !informedRoutes[route] evaluated after the selector loop, the bookkeeping maps only grow, the fallback direction is the single named one; " +
-			"(A3) selector fields are bound to their wire fields; (MERGE) alert trips are merged into Trips; (G6) fallback order does not depend on map iteration. " +
+			"(A3) selector fields are bound to their wire fields; (ENUM) the decoders into enumerations reached from ParseRealtime answer only with declared constants (a route type outside the table is Unknown); (MERGE) alert trips are merged into Trips; (G6) fallback order does not depend on map iteration. " +
 			"Not decided: combinatorics of overlapping selectors beyond these clauses.",
 		Rules: []Rule{
 			{Name: "ALERT", Doc: "predicates, append-under-predicate, keep/clear pairing, fallback guard", MinInstances: 7, Run: runAlertRules},
 			{Name: "LOOPVAR", Doc: "no pointer to a per-loop (go 1.18) iteration variable is kept in the result: each entity gets its own copy", MinInstances: 0, Run: func(c *Ctx) { runLoopVarAlias(c, realtimeFns(c), "LOOPVAR") }},
 			{Name: "A3", Doc: "selector fields bound to wire fields", MinInstances: 35, Run: runWireTable},
+			{Name: "ENUM", Doc: "decoders into an enumeration answer only with its declared values (a route type outside the table is Unknown)", MinInstances: 1, Run: func(c *Ctx) { runEnumDecoders(c, realtimeFns(c), "ENUM") }},
 			{Name: "MERGE", Doc: "alert trips merged into Trips", MinInstances: 7, Run: runMergeRules},
 			{Name: "G6", Doc: "fallback entities in deterministic order", MinInstances: 1, Run: func(c *Ctx) { runG6(c, c.anchors("gtfs:parseAlert", "gtfs:ParseRealtime")) }},
 		},
